@@ -172,7 +172,23 @@ func VerifWriteEffect() {
 	waveOK := s.a.VerifWaveAccessible()
 	reloading := s.t.VerifReloading()
 
+	wi := vU8("wavecell") & 0x0f
+	wcell := s.a.VerifWaveCell(wi)
+	wlast := s.a.VerifWaveLast()
+
 	m.Write(a1, v)
+
+	// wave RAM cells are only partly visible while channel 3 plays but become readable later: they count as readable state
+	if s.a.VerifWaveCell(wi) != wcell {
+		switch {
+		case inRange(a1, 0xff30, 0xff3f) && !ch3On:
+			vAssert("frame-wave-cell-written-is-the-addressed-one", uint16(wi) == a1-0xff30)
+		case inRange(a1, 0xff30, 0xff3f):
+			vAssert("frame-wave-cell-written-is-the-one-being-played", waveOK && wi == wlast)
+		default:
+			vAssert("frame-wave-cells-only-by-trigger-corruption", a1 == NR34)
+		}
+	}
 
 	after1 := m.Read(a1)
 	after2 := m.Read(a2)
